@@ -26,7 +26,7 @@ Definition entries (cs : list con) (ns : list string) : list string :=
   map (fun p => entry (fst p) (snd p)) (combine cs ns).
 
 Definition data_var (f : skel) (w : wstate) (mns ans : list string) (dvn : string) : var :=
-  {| v_name := dvn; v_dims := dims_of w (f_data_axes f);
+  {| v_kind := KNum; v_name := dvn; v_dims := dims_of w (f_data_axes f);
      v_attrs := opt_attr "cell_measures" (entries (meas f) mns) ++ opt_attr "coordinates" (w_coords w)
                 ++ opt_attr "ancillary_variables" (entries (fancs f) ans)
                 ++ opt_attr "cell_methods" (map (cm_string w) (f_cms f)) |}.
@@ -58,9 +58,12 @@ Proof.
   set (AX := map snd (w_axdim w1)).
   assert (HAX : incl AX (used w1)) by (intros x Hx; apply used_dn; apply (ax_dn w1 A1); exact Hx).
   assert (HSd : SdInv AX w1) by (intros p Hp; rewrite S1 in Hp; destruct Hp).
-  destruct (write_aux_fold f AX (auxes f) w1 (fun c H => filter_wf f CAux c Hwf H) I1 R1 Ref1 HAX HSd)
+  assert (Haux : forall c, In c (auxes f) -> con_wf f c /\ c_type c = CAux).
+  { intros c Hc. split; [apply (filter_wf f CAux c Hwf Hc)|].
+    apply filter_In in Hc as [_ Hc]. unfold is_type in Hc. destruct (c_type c); try discriminate; reflexivity. }
+  destruct (write_aux_fold o f AX (auxes f) w1 Haux I1 R1 Ref1 HAX HSd)
     as [I2 [R2 [Ref2 [X2 [E21 [E22 [xns [C2 D2]]]]]]]].
-  fold (auxes f). set (w2 := fold_left write_aux (auxes f) w1) in *.
+  fold (auxes f). set (w2 := fold_left (write_aux o f) (auxes f) w1) in *.
   (* cell measures *)
   assert (Hm : forall c, In c (meas f) -> nice_opt (c_std c) /\ nice_opt (c_ncvar c)).
   { intros c Hc. destruct (filter_wf f CMeasure c Hwf Hc) as [H1 [H2 _]]. split; assumption. }
